@@ -37,6 +37,25 @@ pub struct Obs {
     pub held_tag_names: usize,
     pub must_be_zero_checked: usize,
     pub single_token_checked: usize,
+    pub foreign_name_bound_checked: usize,
+}
+
+/// Start tags for which lol-html's tree-builder simulator asks for the complete lexeme even when nothing is captured
+/// (the tag is then legitimately held whole, DESIGN.md §6): `svg` / `math` roots (self-closing flag), `font` in foreign
+/// content (color / size / face), integration points (self-closing flag), and in MathML every name that has no
+/// LocalNameHash (candidate `annotation-xml`, whose `encoding` attribute decides).
+pub fn simulator_may_need_lexeme(name: &str, ns: structgen::Ns) -> bool {
+    let n = name.to_ascii_lowercase();
+    // `font` with color / size / face breaks out of foreign content: ground truth then says Html for a tag that was met in svg / math
+    if n == "svg" || n == "math" || n == "font" {
+        return true;
+    }
+    let hashable = n.len() <= 12 && n.bytes().all(|b| b.is_ascii_lowercase() || (b'1'..=b'6').contains(&b));
+    match ns {
+        structgen::Ns::Html => false,
+        structgen::Ns::Svg => n == "font" || structgen::SVG_HIP.iter().any(|x| x.eq_ignore_ascii_case(&n)),
+        structgen::Ns::MathMl => n == "font" || structgen::MATH_TIP.contains(&n.as_str()) || !hashable,
+    }
 }
 
 /// `truth`: optional ground truth of the document (token spans), enabling the absolute bounds
@@ -111,6 +130,28 @@ pub fn check(cfg: &Config, input: &[u8], cuts: &[usize], html_only: bool, truth:
                     ));
                 }
             }
+            // (3b) no handlers, start tag in foreign content (or HTML inside an integration point): unless the tree-builder
+            // simulator needs that tag's attributes / self-closing flag (§6), only '<' through the name may be held
+            if no_handlers && !held.is_empty() {
+                if let Some(t) = doc.toks.iter().find(|t| l > t.start && l < t.end) {
+                    if let structgen::Kind::Start { name, ns, .. } = &t.kind {
+                        if !simulator_may_need_lexeme(name, *ns) {
+                            obs.foreign_name_bound_checked += usize::from(*ns != structgen::Ns::Html);
+                            if !(is_unfinished_tag_through_name(held) || held.len() <= LOOKAHEAD_ALLOWANCE) {
+                                return Err((
+                                    "holds-more-than-a-tag-name".into(),
+                                    format!(
+                                        "no handlers registered, yet {} bytes are held back after a write inside the start tag <{name}> ({ns:?} namespace; not a tag whose attributes decide the content model): {}\n prefix: {}",
+                                        held.len(),
+                                        show(held),
+                                        show(prefix)
+                                    ),
+                                ));
+                            }
+                        }
+                    }
+                }
+            }
             if let Some(ts) = tok_start {
                 obs.single_token_checked += 1;
                 // at most the single unfinished token (plus up to 3 bytes of a split multi-byte character before it)
@@ -131,7 +172,7 @@ impl Prop for C09 {
         "C09"
     }
     fn rule(&self) -> String {
-        "for every write boundary of a schedule (all prefixes for inputs <= 300 bytes) pending = bytes_in - bytes_out is compared with a fresh rewriter given the same prefix in one write; handler sets none / non-matching selectors / observers; with no handlers on HTML-namespace input the held bytes must match ^</?[A-Za-z][^\\t\\n\\f\\r />]*$ or be <= 16 bytes; on generated documents with ground-truth token spans: nothing held at a construct boundary (no handlers) and never more than the single unfinished token (observers); a prefix is non-trivial when it ends inside a construct (pending > 0) or right after one; distinct = hash(prefix, config)".into()
+        "for every write boundary of a schedule (all prefixes for inputs <= 300 bytes) pending = bytes_in - bytes_out is compared with a fresh rewriter given the same prefix in one write; handler sets none / non-matching selectors / observers; with no handlers on HTML-namespace input the held bytes must match ^</?[A-Za-z][^\\t\\n\\f\\r />]*$ or be <= 16 bytes; on generated documents with ground-truth token spans (a third of them with svg / math islands; there the name bound is asserted for every start tag whose attributes the tree-builder simulator does not need): nothing held at a construct boundary (no handlers) and never more than the single unfinished token (observers); a prefix is non-trivial when it ends inside a construct (pending > 0) or right after one; distinct = hash(prefix, config)".into()
     }
     fn assumptions(&self) -> Vec<String> {
         vec![
@@ -168,9 +209,13 @@ impl Prop for C09 {
                     let ho = html_only || !contains_foreign(&v);
                     (v, ho, None)
                 }
-            } else {
+            } else if mode < 8 {
                 let d = structgen::gen_doc(&mut ctx.rng, &structgen::Opts { foreign: false, max_nodes: 10, ..Default::default() });
                 (d.bytes.clone(), true, Some(d))
+            } else {
+                // foreign islands with ground truth: the name bound also holds inside svg / math (seeded C09-m5)
+                let d = structgen::gen_doc(&mut ctx.rng, &structgen::Opts { foreign: true, max_nodes: 10, ..Default::default() });
+                (d.bytes.clone(), false, Some(d))
             };
             let cuts: Vec<usize> = if input.len() <= 300 { (1..=input.len()).collect() } else { gen::random_cuts(&mut ctx.rng, input.len()) };
             ctx.eval();
@@ -182,6 +227,7 @@ impl Prop for C09 {
                     ctx.add("held_unfinished_tag_name", o.held_tag_names as u64);
                     ctx.add("must_be_zero_checked", o.must_be_zero_checked as u64);
                     ctx.add("single_token_bound_checked", o.single_token_checked as u64);
+                    ctx.add("foreign_start_tag_name_bound_checked", o.foreign_name_bound_checked as u64);
                     let k = format!("max_lookahead_bytes_{}", o.max_lookahead);
                     if o.max_lookahead > 0 {
                         ctx.count(&k);
